@@ -1349,7 +1349,64 @@ func c11BufferDiscipline(c *Ctx) {
 						}
 					}
 				}
-				c.Check(flushed, rule, inst, where, ifElse(flushed, "a direct write of the underlying stream, preceded by a Flush of the staged bytes", "bytes are handed to the underlying stream directly while earlier fields may still sit in the Encoder's buffer (no unconditional Flush precedes): the stream receives them out of order"))
+				// or: the write happens only where the buffer is known to be empty (n == 0 tested on the way, nothing
+				// staged since)
+				if !flushed {
+					for cur := b; cur != nil && !flushed; cur = cur.Idom() {
+						d := cur.Idom()
+						if d == nil || len(d.Instrs) == 0 || len(d.Succs) != 2 {
+							continue
+						}
+						ifi, ok := d.Instrs[len(d.Instrs)-1].(*ssa.If)
+						if !ok {
+							continue
+						}
+						bo, ok := ifi.Cond.(*ssa.BinOp)
+						if !ok || (bo.Op != token.EQL && bo.Op != token.NEQ) {
+							continue
+						}
+						isN := func(v ssa.Value) bool {
+							ld, ok := v.(*ssa.UnOp)
+							if !ok || ld.Op != token.MUL {
+								return false
+							}
+							fa, ok := ld.X.(*ssa.FieldAddr)
+							return ok && fieldName(fa) == "n"
+						}
+						isZero := func(v ssa.Value) bool {
+							k, ok := v.(*ssa.Const)
+							return ok && k.Value != nil && k.Value.ExactString() == "0"
+						}
+						if !((isN(bo.X) && isZero(bo.Y)) || (isN(bo.Y) && isZero(bo.X))) {
+							continue
+						}
+						edge := 0
+						if bo.Op == token.NEQ {
+							edge = 1
+						}
+						if !edgeDominates(d, edge, cur) {
+							continue
+						}
+						// nothing staged between the test and the write
+						staged := false
+						for _, sb := range fn.Blocks {
+							if !(sb == cur || cur.Dominates(sb)) || !(sb == b || sb.Dominates(b)) {
+								continue
+							}
+							for _, sin := range sb.Instrs {
+								if s, ok := sin.(*ssa.Store); ok {
+									if sfa, ok := s.Addr.(*ssa.FieldAddr); ok && fieldName(sfa) == "n" && (sb != b || instrPrecedes(s, call)) {
+										staged = true
+									}
+								}
+							}
+						}
+						if !staged {
+							flushed = true
+						}
+					}
+				}
+				c.Check(flushed, rule, inst, where, ifElse(flushed, "a direct write of the underlying stream, preceded by a Flush of the staged bytes (or made only where the buffer is empty)", "bytes are handed to the underlying stream directly while earlier fields may still sit in the Encoder's buffer (no unconditional Flush precedes): the stream receives them out of order"))
 			}
 		}
 	}
